@@ -1,1 +1,783 @@
+(* TV.Uring.C18_proofs — invariants of the ring model (property C18). *)
 From TV.Lib Require Import Base.
+From Coq Require Import Permutation.
+From TV.Uring Require Import Gen Model Facts.
+Open Scope N_scope.
+
+(* ---- history-level vocabulary (independent of the file system) ---- *)
+
+Definition acc_of (o : robs) : list acc := match o with OSubmit _ l => l | _ => [] end.
+Definition yield_of (o : robs) : list yield := match o with ONext (Some y) => [y] | _ => [] end.
+Definition accepted (os : list robs) : list acc := flat_map acc_of os.
+Definition yields (os : list robs) : list yield := flat_map yield_of os.
+
+(* What an accepted submission must turn into when it is not cancelled. *)
+Definition faithful (a : acc) (p : apply) : Prop :=
+  if has_unsupported (a_flags a) then p = AErr EINVAL
+  else match a_op a with
+       | Read fd off len => p = ARead fd off len
+       | Write fd off d => p = AWrite fd off d
+       | Fsync fd => p = AFsync fd
+       | Cancel _ => p = AErr 0%Z \/ p = AErr ENOENT
+       end.
+
+(* (sid, ud, when, effect) of a scheduled or yielded completion stems from `a`:
+   same ghost id, same user_data, and either it was cancelled (effect replaced
+   by the -ECANCELED error) or it still carries a's own effect and instant. *)
+Definition origin (a : acc) (sid ud w : N) (p : apply) : Prop :=
+  a_sid a = sid /\ a_ud a = ud /\ (p = AErr ECANCELED \/ (w = a_when a /\ faithful a p)).
+
+Definition live (r : ring) : list scqe := inflight r ++ ready r.
+
+Record Inv (r : ring) (al : list acc) (yl : list yield) : Prop := {
+  inv_nodup : NoDup (map a_sid al);
+  inv_bound : forall a, In a al -> a_sid a < nsid r;
+  inv_perm  : Permutation (map c_sid (live r) ++ map y_sid yl) (map a_sid al);
+  inv_live  : forall c, In c (live r) -> exists a, In a al /\ origin a (c_sid c) (c_ud c) (c_when c) (c_app c);
+  inv_yield : forall y, In y yl -> exists a, In a al /\ origin a (y_sid y) (y_ud y) (y_when y) (y_app y) }.
+
+Lemma inv_new d : Inv (new_ring d) [] [].
+Proof. constructor; cbn; intros; try contradiction; constructor. Qed.
+
+Lemma Inv_ext r r' al yl :
+  inflight r' = inflight r -> ready r' = ready r -> nsid r' = nsid r -> Inv r al yl -> Inv r' al yl.
+Proof.
+  intros E1 E2 E3 [A B C D E]. unfold live in *.
+  constructor; unfold live; rewrite ?E1, ?E2, ?E3; auto.
+Qed.
+
+(* ---- one submitted entry ---- *)
+
+(* How `live` changes in one iteration of the submit loop. *)
+Definition new_entry (r : ring) (now : N) (lats : list N) (e : sqe) (c : scqe) : Prop :=
+  c_sid c = nsid r /\ c_ud c = s_ud e /\
+  (if has_unsupported (s_flags e) then c_when c = now /\ c_app c = AErr EINVAL
+   else match s_op e with
+        | Read fd off len => c_when c = now + fst (take_lat lats) /\ c_app c = ARead fd off len
+        | Write fd off d => c_when c = now + fst (take_lat lats) /\ c_app c = AWrite fd off d
+        | Fsync fd => c_when c = now + fst (take_lat lats) /\ c_app c = AFsync fd
+        | Cancel _ => c_when c = now /\ (c_app c = AErr 0%Z \/ c_app c = AErr ENOENT)
+        end).
+
+Lemma take_lat_fst lats : take_lat lats = (fst (take_lat lats), snd (take_lat lats)).
+Proof. destruct lats; reflexivity. Qed.
+
+Lemma live_sched r c : live (sched r c) = inflight r ++ [c] ++ ready r.
+Proof. unfold live, sched. cbn. now rewrite <- app_assoc. Qed.
+
+Lemma perm_sched r c : Permutation (live (sched r c)) (c :: live r).
+Proof. rewrite live_sched. unfold live. apply Permutation_sym, Permutation_middle. Qed.
+
+(* Shape of `live` after cancel. *)
+Lemma cancel_shape r cud tud now csid :
+  let r' := cancel r cud tud now csid in
+  nsid r' = nsid r /\ sq r' = sq r /\ depth r' = depth r /\ visible r' = visible r /\
+  ((exists c0 rest, Permutation (live r) (c0 :: rest) /\ c_ud c0 = tud /\
+      Permutation (live r') (mk now tud (AErr ECANCELED) (c_sid c0) :: mk now cud (AErr 0%Z) csid :: rest))
+   \/ Permutation (live r') (mk now cud (AErr ENOENT) csid :: live r)).
+Proof.
+  unfold cancel. destruct (find_ud tud (inflight r)) as [[i c]|] eqn:F.
+  - cbn. repeat split; try reflexivity. left.
+    apply find_ud_nth in F as [Hn Hu]. exists c, (swap_remove i (inflight r) ++ ready r).
+    split; [|split; [exact Hu|]].
+    + unfold live. change (c :: swap_remove i (inflight r) ++ ready r) with ((c :: swap_remove i (inflight r)) ++ ready r).
+      apply Permutation_app_tail, swap_remove_perm, Hn.
+    + unfold live. cbn. rewrite <- app_assoc. cbn.
+      eapply perm_trans; [apply Permutation_sym, Permutation_middle|]. constructor.
+      apply Permutation_sym, Permutation_middle.
+  - destruct (find_ud tud (ready r)) as [[i c]|] eqn:G.
+    + cbn. repeat split; try reflexivity. left.
+      apply find_ud_nth in G as [Hn Hu]. exists c, (inflight r ++ remove_nth i (ready r)).
+      split; [|split; [exact Hu|]].
+      * unfold live. eapply perm_trans; [apply Permutation_app_head, (remove_nth_perm _ _ _ Hn)|].
+        apply Permutation_sym, Permutation_middle.
+      * unfold live. cbn. rewrite <- app_assoc. cbn.
+        eapply perm_trans; [apply Permutation_sym, Permutation_middle|]. constructor.
+        apply Permutation_sym, Permutation_middle.
+    + cbn. repeat split; try reflexivity. right. unfold live. cbn. rewrite <- app_assoc. cbn.
+      apply Permutation_sym, Permutation_middle.
+Qed.
+
+Lemma faithful_acc_one sid now lats e :
+  let a := fst (acc_one sid now lats e) in
+  a_sid a = sid /\ a_ud a = s_ud e /\ a_op a = s_op e /\ a_flags a = s_flags e /\
+  snd (acc_one sid now lats e) =
+    (if has_unsupported (s_flags e) then lats
+     else match s_op e with Cancel _ => lats | _ => snd (take_lat lats) end) /\
+  a_when a = (if has_unsupported (s_flags e) then now
+              else match s_op e with Cancel _ => now | _ => now + fst (take_lat lats) end).
+Proof.
+  unfold acc_one. destruct (has_unsupported (s_flags e)); cbn; [repeat split; reflexivity|].
+  destruct (s_op e); try rewrite (take_lat_fst lats); cbn; repeat split; reflexivity.
+Qed.
+
+Lemma submit_one_lats r now lats e :
+  snd (submit_one r now lats e) = snd (acc_one (nsid r) now lats e).
+Proof.
+  unfold submit_one, acc_one. destruct (has_unsupported (s_flags e)); [reflexivity|].
+  destruct (s_op e); try rewrite (take_lat_fst lats); reflexivity.
+Qed.
+
+Lemma in_perm_cons {A} (x : A) l l' y : Permutation l' (x :: l) -> In y l' -> y = x \/ In y l.
+Proof. intros P H. apply (Permutation_in _ P) in H. destruct H; auto. Qed.
+
+Lemma submit_one_inv r al yl now lats e :
+  Inv r al yl ->
+  let r' := fst (submit_one r now lats e) in
+  let a := fst (acc_one (nsid r) now lats e) in
+  Inv r' (al ++ [a]) yl /\ nsid r' = nsid r + 1.
+Proof.
+  intros I r' a.
+  destruct (faithful_acc_one (nsid r) now lats e) as (As & Au & Ao & Af & _ & Aw). fold a in As, Au, Ao, Af, Aw.
+  (* common part: the new accepted record has a fresh sid *)
+  assert (Fresh : ~ In (a_sid a) (map a_sid al)).
+  { rewrite As. intro Hin. apply in_map_iff in Hin as (b & Hb & Hin). apply (inv_bound _ _ _ I) in Hin. lia. }
+  assert (ND : NoDup (map a_sid (al ++ [a]))).
+  { rewrite map_app. cbn. apply NoDup_app_iff. split; [apply (inv_nodup _ _ _ I)|]. split; [repeat constructor; auto|].
+    intros x Hx [<-|[]]. contradiction. }
+  (* a direct schedule of an entry c that is new_entry *)
+  assert (Sched : forall c, new_entry r now lats e c -> (c_app c <> AErr ECANCELED -> faithful a (c_app c) /\ c_when c = a_when a) ->
+            faithful a (c_app c) /\ c_when c = a_when a ->
+            Inv (sched (bump_sid r) c) (al ++ [a]) yl /\ nsid (sched (bump_sid r) c) = nsid r + 1).
+  { intros c (Cs & Cu & _) _ (Cf & Cw). split; [|reflexivity]. constructor.
+    - exact ND.
+    - intros b Hb. cbn. apply in_app_or in Hb as [Hb|[<-|[]]]; [apply (inv_bound _ _ _ I) in Hb|]; lia.
+    - rewrite map_app. cbn.
+      eapply perm_trans; [apply Permutation_app_tail, Permutation_map, perm_sched|].
+      cbn. rewrite Cs, <- As. eapply perm_trans; [|apply Permutation_cons_append].
+      constructor. apply (inv_perm _ _ _ I).
+    - intros x Hx. apply (in_perm_cons _ _ _ _ (perm_sched _ _)) in Hx as [->|Hx].
+      + exists a. split; [apply in_or_app; right; now left|]. repeat split; auto; try congruence.
+      + destruct (inv_live _ _ _ I x Hx) as (b & Hb & O). exists b. split; [apply in_or_app; now left|exact O].
+    - intros y Hy. destruct (inv_yield _ _ _ I y Hy) as (b & Hb & O). exists b. split; [apply in_or_app; now left|exact O]. }
+  unfold r', submit_one.
+  destruct (has_unsupported (s_flags e)) eqn:U.
+  - cbn. apply Sched.
+    + repeat split; cbn; try reflexivity. now rewrite U.
+    + intros _. unfold faithful. rewrite Af, U. cbn. now rewrite Aw.
+    + unfold faithful. rewrite Af, U. cbn. now rewrite Aw.
+  - destruct (s_op e) as [fd off len|fd off d|fd|tud] eqn:O.
+    + rewrite (take_lat_fst lats). cbn. apply Sched.
+      * repeat split; cbn; try reflexivity. now rewrite U, O.
+      * intros _. unfold faithful. rewrite Af, U, Ao. cbn. now rewrite Aw.
+      * unfold faithful. rewrite Af, U, Ao. cbn. now rewrite Aw.
+    + rewrite (take_lat_fst lats). cbn. apply Sched.
+      * repeat split; cbn; try reflexivity. now rewrite U, O.
+      * intros _. unfold faithful. rewrite Af, U, Ao. cbn. now rewrite Aw.
+      * unfold faithful. rewrite Af, U, Ao. cbn. now rewrite Aw.
+    + rewrite (take_lat_fst lats). cbn. apply Sched.
+      * repeat split; cbn; try reflexivity. now rewrite U, O.
+      * intros _. unfold faithful. rewrite Af, U, Ao. cbn. now rewrite Aw.
+      * unfold faithful. rewrite Af, U, Ao. cbn. now rewrite Aw.
+    + (* cancel *)
+      cbn [fst].
+      assert (Ib : Inv (bump_sid r) al yl /\ nsid (bump_sid r) = nsid r + 1).
+      { split; [|reflexivity]. destruct I as [A B C D E]. constructor; auto.
+        intros b Hb. cbn. apply B in Hb. lia. }
+      destruct Ib as [Ib Nb].
+      pose proof (cancel_shape (bump_sid r) (s_ud e) tud now (nsid r)) as (Ns & _ & _ & _ & Sh).
+      set (rc := cancel (bump_sid r) (s_ud e) tud now (nsid r)) in *.
+      assert (Live0 : live (bump_sid r) = live r) by reflexivity.
+      split; [|rewrite Ns; exact Nb].
+      assert (Fa0 : faithful a (AErr 0%Z)) by (unfold faithful; rewrite Af, U, Ao; now left).
+      assert (Fa1 : faithful a (AErr ENOENT)) by (unfold faithful; rewrite Af, U, Ao; now right).
+      assert (Aw' : a_when a = now) by exact Aw.
+      destruct Sh as [(c0 & rest & P0 & Hu & P1)|P1].
+      * rewrite Live0 in P0. constructor.
+        -- exact ND.
+        -- intros b Hb. rewrite Ns, Nb. apply in_app_or in Hb as [Hb|[<-|[]]]; [apply (inv_bound _ _ _ I) in Hb|]; lia.
+        -- rewrite map_app. cbn.
+           eapply perm_trans; [apply Permutation_app_tail, Permutation_map, P1|]. cbn.
+           rewrite <- As.
+           eapply perm_trans; [apply perm_swap|].
+           eapply perm_trans; [|apply Permutation_cons_append]. constructor.
+           eapply perm_trans; [|apply (inv_perm _ _ _ I)].
+           change (c_sid c0 :: map c_sid rest ++ map y_sid yl) with (map c_sid (c0 :: rest) ++ map y_sid yl).
+           apply Permutation_app_tail, Permutation_map, Permutation_sym, P0.
+        -- intros x Hx. apply (Permutation_in _ P1) in Hx. destruct Hx as [<-|[<-|Hx]].
+           ++ assert (H0 : In c0 (live r)) by (apply (Permutation_in _ (Permutation_sym P0)); now left).
+              destruct (inv_live _ _ _ I c0 H0) as (b & Hb & (Os & Ou & _)).
+              exists b. split; [apply in_or_app; now left|]. cbn. repeat split; auto. congruence.
+           ++ exists a. split; [apply in_or_app; right; now left|]. cbn. repeat split; auto.
+           ++ assert (H0 : In x (live r)) by (apply (Permutation_in _ (Permutation_sym P0)); now right).
+              destruct (inv_live _ _ _ I x H0) as (b & Hb & Ob). exists b. split; [apply in_or_app; now left|exact Ob].
+        -- intros y Hy. destruct (inv_yield _ _ _ I y Hy) as (b & Hb & Ob). exists b. split; [apply in_or_app; now left|exact Ob].
+      * rewrite Live0 in P1. constructor.
+        -- exact ND.
+        -- intros b Hb. rewrite Ns, Nb. apply in_app_or in Hb as [Hb|[<-|[]]]; [apply (inv_bound _ _ _ I) in Hb|]; lia.
+        -- rewrite map_app. cbn.
+           eapply perm_trans; [apply Permutation_app_tail, Permutation_map, P1|]. cbn.
+           rewrite <- As. eapply perm_trans; [|apply Permutation_cons_append]. constructor. apply (inv_perm _ _ _ I).
+        -- intros x Hx. apply (Permutation_in _ P1) in Hx. destruct Hx as [<-|Hx].
+           ++ exists a. split; [apply in_or_app; right; now left|]. cbn. repeat split; auto.
+           ++ destruct (inv_live _ _ _ I x Hx) as (b & Hb & Ob). exists b. split; [apply in_or_app; now left|exact Ob].
+        -- intros y Hy. destruct (inv_yield _ _ _ I y Hy) as (b & Hb & Ob). exists b. split; [apply in_or_app; now left|exact Ob].
+Qed.
+
+Lemma submit_entries_inv es : forall r al yl now lats,
+  Inv r al yl -> Inv (submit_entries r now lats es) (al ++ acc_list (nsid r) now lats es) yl.
+Proof.
+  induction es as [|e es IH]; intros r al yl now lats I; cbn.
+  - now rewrite app_nil_r.
+  - pose proof (submit_one_inv r al yl now lats e I) as [I' Ns].
+    pose proof (submit_one_lats r now lats e) as L.
+    destruct (submit_one r now lats e) as [r' lats'] eqn:S1.
+    destruct (acc_one (nsid r) now lats e) as [a lats''] eqn:A1. cbn in *. subst lats''.
+    specialize (IH r' (al ++ [a]) yl now lats' I'). rewrite Ns in IH.
+    now rewrite <- app_assoc in IH.
+Qed.
+
+(* ---- promotion and iteration ---- *)
+
+Lemma promote_live r now order : Permutation (live (promote r now order)) (live r) /\ nsid (promote r now order) = nsid r.
+Proof.
+  unfold promote. destruct (promote_loop _ _ _ _ _) as [infl m] eqn:P.
+  apply promote_loop_spec in P as (Pm & _). rewrite app_nil_r in Pm. split; [|reflexivity].
+  unfold live. cbn.
+  eapply perm_trans; [|apply Permutation_app_tail, Permutation_sym, Pm].
+  rewrite <- app_assoc. apply Permutation_app_head.
+  eapply perm_trans; [apply Permutation_app_comm|]. apply Permutation_app_tail, reorder_perm.
+Qed.
+
+Lemma Inv_perm_live r r' al yl :
+  Permutation (live r') (live r) -> nsid r' = nsid r -> Inv r al yl -> Inv r' al yl.
+Proof.
+  intros P N [A B C D E]. constructor; auto.
+  - intros a Ha. rewrite N. auto.
+  - eapply perm_trans; [apply Permutation_app_tail, Permutation_map, P|exact C].
+  - intros c Hc. apply D. eapply Permutation_in; eauto.
+Qed.
+
+Section WithFs.
+Variable A : fsapi.
+
+Lemma next_inv r fs now order r' fs' oy al yl :
+  Inv r al yl -> next A r fs now order = (r', fs', oy) ->
+  Inv r' al (yl ++ match oy with Some y => [y] | None => [] end).
+Proof.
+  intros I H. unfold next in H. destruct (visible r =? 0).
+  - inversion H; subst. now rewrite app_nil_r.
+  - destruct (promote_live r now order) as [P N].
+    pose proof (Inv_perm_live _ _ _ _ P N I) as I1.
+    set (r1 := promote r now order) in *.
+    destruct (ready r1) as [|c rest] eqn:R.
+    + inversion H; subst. now rewrite app_nil_r.
+    + destruct (exec A fs (c_app c)) as [[fs1 z] d] eqn:X. inversion H; subst. clear H.
+      assert (L1 : live r1 = inflight r1 ++ c :: rest) by (unfold live; now rewrite R).
+      destruct I1 as [IA IB IC ID IE]. constructor; auto.
+      * assert (L2 : live (set_visible (set_ready r1 rest) (visible r - 1)) = inflight r1 ++ rest) by reflexivity.
+        rewrite L2. eapply perm_trans; [|exact IC]. rewrite L1, !map_app. cbn.
+        rewrite <- !app_assoc. apply Permutation_app_head.
+        rewrite app_assoc. apply Permutation_sym, Permutation_cons_append.
+      * intros x Hx. apply ID. rewrite L1.
+        assert (L2 : live (set_visible (set_ready r1 rest) (visible r - 1)) = inflight r1 ++ rest) by reflexivity.
+        rewrite L2 in Hx.
+        apply in_app_or in Hx as [Hx|Hx]; apply in_or_app; [now left|right; now right].
+      * intros y Hy. apply in_app_or in Hy as [Hy|[<-|[]]]; [now apply IE|]. cbn.
+        apply ID. rewrite L1. apply in_or_app. right. now left.
+Qed.
+
+Fixpoint rrun (r : ring) (fs : FS A) (es : list rv) : ring * FS A * list robs :=
+  match es with
+  | [] => (r, fs, [])
+  | e :: es' => let '(r', fs', o) := rstep A r fs e in
+                let '(r'', fs'', os) := rrun r' fs' es' in (r'', fs'', o :: os)
+  end.
+
+Lemma rstep_inv r fs e r' fs' o al yl :
+  Inv r al yl -> rstep A r fs e = (r', fs', o) -> Inv r' (al ++ acc_of o) (yl ++ yield_of o).
+Proof.
+  intros I H. destruct e as [q|now lats| |now|now order|now]; cbn in H.
+  - unfold push in H. destruct (depth r <=? N.of_nat (length (sq r))); inversion H; subst; cbn; rewrite !app_nil_r; auto.
+    eapply Inv_ext; [| | |exact I]; reflexivity.
+  - inversion H; subst. cbn. rewrite app_nil_r.
+    apply (submit_entries_inv (sq r) (set_sq r []) al yl now lats).
+    eapply Inv_ext; [| | |exact I]; reflexivity.
+  - inversion H; subst; cbn; rewrite !app_nil_r. eapply Inv_ext; [| | |exact I]; reflexivity.
+  - inversion H; subst; cbn; rewrite !app_nil_r. eapply Inv_ext; [| | |exact I]; reflexivity.
+  - destruct (next A r fs now order) as [[r1 fs1] oy] eqn:X. inversion H; subst. cbn. rewrite app_nil_r.
+    exact (next_inv _ _ _ _ _ _ _ _ _ I X).
+  - inversion H; subst; cbn; rewrite !app_nil_r. exact I.
+Qed.
+
+Lemma rrun_inv es : forall r fs r' fs' os al yl,
+  Inv r al yl -> rrun r fs es = (r', fs', os) -> Inv r' (al ++ accepted os) (yl ++ yields os).
+Proof.
+  induction es as [|e es IH]; intros r fs r' fs' os al yl I H; cbn in H.
+  - inversion H; subst. cbn. now rewrite !app_nil_r.
+  - destruct (rstep A r fs e) as [[r1 fs1] o] eqn:S.
+    destruct (rrun r1 fs1 es) as [[r2 fs2] os2] eqn:R. inversion H; subst.
+    pose proof (rstep_inv _ _ _ _ _ _ _ _ I S) as I1.
+    specialize (IH _ _ _ _ _ _ _ I1 R). unfold accepted, yields in *. cbn. now rewrite !app_assoc.
+Qed.
+
+(* ---- exactly once ---- *)
+
+Lemma exec_err fs e : exec A fs (AErr e) = (fs, e, []).
+Proof. reflexivity. Qed.
+
+(* the result carried by a yielded completion is the result of executing its effect *)
+Definition res_ok (y : yield) : Prop := forall e, y_app y = AErr e -> y_res y = e /\ y_data y = [].
+
+Lemma rrun_res_ok es : forall r fs r' fs' os,
+  rrun r fs es = (r', fs', os) -> Forall res_ok (yields os).
+Proof.
+  induction es as [|e es IH]; intros r fs r' fs' os H; cbn in H.
+  - inversion H; subst. constructor.
+  - destruct (rstep A r fs e) as [[r1 fs1] o] eqn:S.
+    destruct (rrun r1 fs1 es) as [[r2 fs2] os2] eqn:R. inversion H; subst.
+    unfold yields. cbn. apply Forall_app. split; [|eapply IH; eauto].
+    destruct e; cbn in S; try (inversion S; subst; constructor).
+    + destruct (push r e); inversion S; subst; constructor.
+    + destruct (next A r fs now order) as [[rr ff] oy] eqn:X. inversion S; subst.
+      unfold next in X. destruct (visible r =? 0); [inversion X; subst; constructor|].
+      destruct (ready (promote r now order)) as [|c rest]; [inversion X; subst; constructor|].
+      destruct (exec A fs (c_app c)) as [[f1 z] d] eqn:E. inversion X; subst. cbn.
+      constructor; [|constructor]. intros e' He. cbn in He. rewrite He in E. cbn in E. inversion E; subst. now split.
+Qed.
+
+Lemma exactly_once_lemma d fs es r fs' os :
+  rrun (new_ring d) fs es = (r, fs', os) ->
+  NoDup (map a_sid (accepted os)) /\
+  Permutation (map c_sid (inflight r) ++ map c_sid (ready r) ++ map y_sid (yields os)) (map a_sid (accepted os)) /\
+  NoDup (map c_sid (inflight r) ++ map c_sid (ready r) ++ map y_sid (yields os)) /\
+  (forall y, In y (yields os) -> exists a, In a (accepted os) /\ a_sid a = y_sid y /\ a_ud a = y_ud y /\
+      ((y_app y = AErr ECANCELED /\ y_res y = ECANCELED /\ y_data y = []) \/
+       (y_when y = a_when a /\ faithful a (y_app y)))).
+Proof.
+  intros H. pose proof (rrun_inv es _ _ _ _ _ [] [] (inv_new d) H) as I. cbn in I.
+  pose proof (rrun_res_ok es _ _ _ _ _ H) as RO.
+  destruct I as [IA IB IC ID IE]. split; [exact IA|].
+  assert (P : Permutation (map c_sid (inflight r) ++ map c_sid (ready r) ++ map y_sid (yields os))
+                          (map a_sid (accepted os))).
+  { unfold live in IC. rewrite map_app, <- app_assoc in IC. exact IC. }
+  split; [exact P|]. split; [eapply Permutation_NoDup; [apply Permutation_sym, P|exact IA]|].
+  intros y Hy. destruct (IE y Hy) as (a & Ha & Os & Ou & Oc). exists a. repeat split; auto.
+  destruct Oc as [Oc|Oc]; [left|now right].
+  rewrite Forall_forall in RO. destruct (RO y Hy _ Oc). auto.
+Qed.
+
+(* ---- not early ---- *)
+
+Definition ev_time (e : rv) : option N :=
+  match e with Submit t _ | Sync t | Next t _ | Readable t => Some t | _ => None end.
+Fixpoint mono (t : N) (es : list rv) : Prop :=
+  match es with
+  | [] => True
+  | e :: es' => match ev_time e with Some t' => t <= t' /\ mono t' es' | None => mono t es' end
+  end.
+Definition timely (e : rv) (o : robs) : Prop :=
+  match e, o with Next now _, ONext (Some y) => y_when y <= now | _, _ => True end.
+Definition ReadyDue (r : ring) (t : N) : Prop := Forall (fun c => c_when c <= t) (ready r).
+
+Lemma ReadyDue_mono r t t' : t <= t' -> ReadyDue r t -> ReadyDue r t'.
+Proof. intros L. apply Forall_impl. intros c. lia. Qed.
+
+Lemma remove_nth_incl {X} i (l : list X) x : In x (remove_nth i l) -> In x l.
+Proof.
+  unfold remove_nth. intros H. apply in_app_or in H as [H|H].
+  - rewrite <- (firstn_skipn i l). apply in_or_app. now left.
+  - rewrite <- (firstn_skipn (S i) l). apply in_or_app. now right.
+Qed.
+
+Lemma cancel_ready r cud tud now csid x :
+  In x (ready (cancel r cud tud now csid)) -> In x (ready r).
+Proof.
+  unfold cancel. destruct (find_ud tud (inflight r)) as [[i c]|]; [auto|].
+  destruct (find_ud tud (ready r)) as [[i c]|]; [|auto]. cbn. apply remove_nth_incl.
+Qed.
+
+Lemma submit_one_ready r now lats e x :
+  In x (ready (fst (submit_one r now lats e))) -> In x (ready r).
+Proof.
+  unfold submit_one. destruct (has_unsupported (s_flags e)); [auto|].
+  destruct (s_op e); try rewrite (take_lat_fst lats); cbn; auto. apply cancel_ready.
+Qed.
+
+Lemma submit_entries_ready es : forall r now lats x,
+  In x (ready (submit_entries r now lats es)) -> In x (ready r).
+Proof.
+  induction es as [|e es IH]; intros r now lats x; cbn; [auto|].
+  destruct (submit_one r now lats e) as [r' l'] eqn:S. intros H. apply IH in H.
+  apply (submit_one_ready r now lats e). now rewrite S.
+Qed.
+
+Lemma promote_ready_due r now order t :
+  t <= now -> ReadyDue r t -> ReadyDue (promote r now order) now.
+Proof.
+  intros L RD. unfold promote. destruct (promote_loop _ _ _ _ _) as [infl m] eqn:P.
+  apply promote_loop_spec in P as (_ & m2 & -> & F). cbn in F |- *.
+  unfold ReadyDue. cbn. apply Forall_app. split; [eapply ReadyDue_mono; eauto|].
+  rewrite Forall_forall in *. intros c Hc. apply (Permutation_in _ (reorder_perm order m2)) in Hc.
+  apply F in Hc. unfold due in Hc. now apply N.leb_le.
+Qed.
+
+Lemma rstep_timely r fs e r' fs' o t :
+  ReadyDue r t -> (match ev_time e with Some t' => t <= t' | None => True end) ->
+  rstep A r fs e = (r', fs', o) ->
+  timely e o /\ ReadyDue r' (match ev_time e with Some t' => t' | None => t end).
+Proof.
+  intros RD L H. destruct e as [q|now lats| |now|now order|now]; cbn in *.
+  - unfold push in H. destruct (depth r <=? N.of_nat (length (sq r))); inversion H; subst; split; auto.
+  - inversion H; subst. split; [exact I|]. unfold ReadyDue. rewrite Forall_forall. intros c Hc.
+    apply submit_entries_ready in Hc. cbn in Hc. unfold ReadyDue in RD. rewrite Forall_forall in RD.
+    specialize (RD c Hc). lia.
+  - inversion H; subst. split; auto.
+  - inversion H; subst. split; [exact I|]. eapply ReadyDue_mono; eauto.
+  - destruct (next A r fs now order) as [[r1 fs1] oy] eqn:X. inversion H; subst. clear H.
+    unfold next in X. destruct (visible r =? 0).
+    + inversion X; subst. split; [exact I|]. eapply ReadyDue_mono; eauto.
+    + pose proof (promote_ready_due r now order t L RD) as RD1.
+      destruct (ready (promote r now order)) as [|c rest] eqn:R.
+      * inversion X; subst. split; [exact I|exact RD1].
+      * destruct (exec A fs (c_app c)) as [[f1 z] d]. inversion X; subst. unfold ReadyDue in RD1. rewrite R in RD1.
+        inversion RD1; subst. split; [cbn; assumption|]. unfold ReadyDue. cbn. assumption.
+  - inversion H; subst. split; [exact I|]. eapply ReadyDue_mono; eauto.
+Qed.
+
+Lemma rrun_timely es : forall r fs r' fs' os t,
+  ReadyDue r t -> mono t es -> rrun r fs es = (r', fs', os) -> Forall2 timely es os.
+Proof.
+  induction es as [|e es IH]; intros r fs r' fs' os t RD M H; cbn in H.
+  - inversion H; subst. constructor.
+  - destruct (rstep A r fs e) as [[r1 fs1] o] eqn:S.
+    destruct (rrun r1 fs1 es) as [[r2 fs2] os2] eqn:R. inversion H; subst.
+    cbn in M.
+    assert (L : match ev_time e with Some t' => t <= t' | None => True end) by (destruct (ev_time e); tauto).
+    destruct (rstep_timely _ _ _ _ _ _ _ RD L S) as [T RD1].
+    constructor; [exact T|]. eapply IH; [exact RD1| |exact R].
+    destruct (ev_time e); tauto.
+Qed.
+
+(* the scheduled instant of an accepted submission is its submission time plus
+   a latency taken from the Submit argument (never earlier than the submission) *)
+Lemma acc_list_when es : forall sid now lats a,
+  In a (acc_list sid now lats es) -> now <= a_when a.
+Proof.
+  induction es as [|e es IH]; intros sid now lats a H; cbn in H; [contradiction|].
+  destruct (acc_one sid now lats e) as [a0 l0] eqn:E. destruct H as [<-|H]; [|eauto].
+  pose proof (faithful_acc_one sid now lats e) as (_ & _ & _ & _ & _ & W). rewrite E in W. cbn in W.
+  rewrite W. destruct (has_unsupported (s_flags e)); [lia|]. destruct (s_op e); lia.
+Qed.
+
+(* ---- same as the synchronous API ---- *)
+
+(* The synchronous API applied to a user-level operation. *)
+Definition sync_op (fs : FS A) (o : op) : FS A * Z * list N :=
+  match o with
+  | Read fd off len => if fs_open A fs fd then fs_read A fs fd off len else (fs, EBADF, [])
+  | Write fd off d => if fs_open A fs fd then let '(fs', z) := fs_write A fs fd off d in (fs', z, []) else (fs, EBADF, [])
+  | Fsync fd => if fs_open A fs fd then let '(fs', z) := fs_fsync A fs fd in (fs', z, []) else (fs, EBADF, [])
+  | Cancel _ => (fs, 0%Z, [])
+  end.
+
+Definition is_io (o : op) : bool := match o with Cancel _ => false | _ => true end.
+
+Lemma faithful_exec a p fs :
+  faithful a p -> has_unsupported (a_flags a) = false -> is_io (a_op a) = true ->
+  exec A fs p = sync_op fs (a_op a).
+Proof.
+  unfold faithful. intros F U I. rewrite U in F. destruct (a_op a); try discriminate; subst; reflexivity.
+Qed.
+
+Lemma faithful_noeffect a p fs :
+  faithful a p -> has_unsupported (a_flags a) = true \/ is_io (a_op a) = false ->
+  exists e, p = AErr e /\ exec A fs p = (fs, e, []).
+Proof.
+  unfold faithful. intros F [U|I].
+  - rewrite U in F. subst. eexists; split; reflexivity.
+  - destruct (has_unsupported (a_flags a)); [subst; eexists; split; reflexivity|].
+    destruct (a_op a); try discriminate. destruct F; subst; eexists; split; reflexivity.
+Qed.
+
+(* Replaying the yielded effects, in yield order, on the initial file system. *)
+Fixpoint replay (fs : FS A) (ys : list yield) : FS A * list (Z * list N) :=
+  match ys with
+  | [] => (fs, [])
+  | y :: t => let '(fs', z, d) := exec A fs (y_app y) in
+              let '(f, l) := replay fs' t in (f, (z, d) :: l)
+  end.
+
+Lemma rrun_replay es : forall r fs r' fs' os,
+  rrun r fs es = (r', fs', os) ->
+  replay fs (yields os) = (fs', map (fun y => (y_res y, y_data y)) (yields os)).
+Proof.
+  induction es as [|e es IH]; intros r fs r' fs' os H; cbn in H.
+  - inversion H; subst. reflexivity.
+  - destruct (rstep A r fs e) as [[r1 fs1] o] eqn:S.
+    destruct (rrun r1 fs1 es) as [[r2 fs2] os2] eqn:R. inversion H; subst.
+    specialize (IH _ _ _ _ _ R). unfold yields in *. cbn.
+    assert (Nochg : yield_of o = [] -> fs1 = fs -> replay fs (yield_of o ++ flat_map yield_of os2) =
+              (fs', map (fun y => (y_res y, y_data y)) (yield_of o ++ flat_map yield_of os2))).
+    { intros -> ->. exact IH. }
+    destruct e; cbn in S.
+    + destruct (push r e); inversion S; subst. now apply Nochg.
+    + inversion S; subst. now apply Nochg.
+    + inversion S; subst. now apply Nochg.
+    + inversion S; subst. now apply Nochg.
+    + destruct (next A r fs now order) as [[rr ff] oy] eqn:X. inversion S; subst. clear S.
+      unfold next in X. destruct (visible r =? 0); [inversion X; subst; now apply Nochg|].
+      destruct (ready (promote r now order)) as [|c rest]; [inversion X; subst; now apply Nochg|].
+      destruct (exec A fs (c_app c)) as [[f1 z] d] eqn:E. inversion X; subst. cbn.
+      rewrite E. now rewrite IH.
+    + inversion S; subst. now apply Nochg.
+Qed.
+
+
+(* ---- submission instants and rejected flags, history level ---- *)
+
+Definition submitted_at (e : rv) (o : robs) : Prop :=
+  match e, o with
+  | Submit now _, OSubmit n l => n = N.of_nat (length l) /\ forall a, In a l -> now <= a_when a
+  | _, _ => True
+  end.
+
+Lemma acc_list_length es : forall sid now lats, length (acc_list sid now lats es) = length es.
+Proof.
+  induction es as [|e es IH]; intros; cbn; [reflexivity|].
+  destruct (acc_one sid now lats e). cbn. now rewrite IH.
+Qed.
+
+Lemma rrun_submitted es : forall r fs r' fs' os,
+  rrun r fs es = (r', fs', os) -> Forall2 submitted_at es os.
+Proof.
+  induction es as [|e es IH]; intros r fs r' fs' os H; cbn in H.
+  - inversion H; subst. constructor.
+  - destruct (rstep A r fs e) as [[r1 fs1] o] eqn:S.
+    destruct (rrun r1 fs1 es) as [[r2 fs2] os2] eqn:R. inversion H; subst.
+    constructor; [|eapply IH; eauto].
+    destruct e as [q|now lats| |now|now order|now]; cbn in S.
+    + destruct (push r q); inversion S; subst; exact I.
+    + inversion S; subst. cbn. split; [now rewrite acc_list_length|]. intros a. apply acc_list_when.
+    + inversion S; subst; exact I.
+    + inversion S; subst; exact I.
+    + destruct (next A r fs now order) as [[? ?] ?]. inversion S; subst. exact I.
+    + inversion S; subst; exact I.
+Qed.
+
+Lemma NoDup_map_inj {X Y} (f : X -> Y) l a b :
+  NoDup (map f l) -> In a l -> In b l -> f a = f b -> a = b.
+Proof.
+  induction l as [|x l IH]; cbn; intros ND Ha Hb E; [contradiction|].
+  inversion ND as [|? ? Hn Hd]; subst.
+  destruct Ha as [<-|Ha], Hb as [<-|Hb]; auto.
+  - exfalso. apply Hn. rewrite E. now apply in_map.
+  - exfalso. apply Hn. rewrite <- E. now apply in_map.
+Qed.
+
+Lemma unsupported_history d fs es r fs' os :
+  rrun (new_ring d) fs es = (r, fs', os) ->
+  forall y a, In y (yields os) -> In a (accepted os) -> a_sid a = y_sid y ->
+  has_unsupported (a_flags a) = true ->
+  (y_res y = EINVAL \/ y_res y = ECANCELED) /\ y_data y = [] /\ exists e, y_app y = AErr e.
+Proof.
+  intros H y a Hy Ha Es U.
+  destruct (exactly_once_lemma _ _ _ _ _ _ H) as (ND & _ & _ & Y).
+  destruct (Y y Hy) as (a' & Ha' & Es' & _ & C).
+  assert (a' = a) by (eapply NoDup_map_inj; eauto; congruence). subst a'.
+  pose proof (rrun_res_ok es _ _ _ _ _ H) as RO. rewrite Forall_forall in RO.
+  destruct C as [(C1 & C2 & C3)|(_ & F)].
+  - repeat split; eauto.
+  - unfold faithful in F. rewrite U in F. destruct (RO y Hy _ F) as [R1 R2]. repeat split; eauto.
+Qed.
+
+Lemma same_as_sync_history d fs es r fs' os :
+  rrun (new_ring d) fs es = (r, fs', os) ->
+  forall y, In y (yields os) -> exists a, In a (accepted os) /\ a_sid a = y_sid y /\
+    (y_app y = AErr ECANCELED \/
+     (has_unsupported (a_flags a) = false /\ is_io (a_op a) = true /\
+      forall f, exec A f (y_app y) = sync_op f (a_op a)) \/
+     (exists e, y_app y = AErr e /\ forall f, exec A f (y_app y) = (f, e, []))).
+Proof.
+  intros H y Hy.
+  destruct (exactly_once_lemma _ _ _ _ _ _ H) as (_ & _ & _ & Y).
+  destruct (Y y Hy) as (a & Ha & Es & _ & C). exists a. split; [exact Ha|]. split; [exact Es|].
+  destruct C as [(C1 & _)|(_ & F)]; [now left|right].
+  destruct (has_unsupported (a_flags a)) eqn:U.
+  - right. destruct (faithful_noeffect a (y_app y) fs F (or_introl U)) as (e & E1 & _).
+    exists e. split; [exact E1|]. intros f. now rewrite E1.
+  - destruct (is_io (a_op a)) eqn:IO.
+    + left. repeat split; auto. intros f. now apply faithful_exec.
+    + right. destruct (faithful_noeffect a (y_app y) fs F (or_intror IO)) as (e & E1 & _).
+      exists e. split; [exact E1|]. intros f. now rewrite E1.
+Qed.
+
+(* ---- push ---- *)
+
+Definition SqOk (r : ring) : Prop := N.of_nat (length (sq r)) <= depth r.
+
+Lemma submit_entries_sq es : forall r now lats,
+  sq (submit_entries r now lats es) = sq r /\ depth (submit_entries r now lats es) = depth r.
+Proof.
+  induction es as [|e es IH]; intros r now lats; cbn; [auto|].
+  destruct (submit_one r now lats e) as [r' l'] eqn:S.
+  destruct (IH r' now l') as [E1 E2]. rewrite E1, E2.
+  unfold submit_one in S. destruct (has_unsupported (s_flags e)); [inversion S; subst; auto|].
+  destruct (s_op e); try rewrite (take_lat_fst lats) in S; inversion S; subst; auto.
+  destruct (cancel_shape (bump_sid r) (s_ud e) target now (nsid r)) as (_ & Q & D & _). auto.
+Qed.
+
+Lemma promote_sq r now order : sq (promote r now order) = sq r /\ depth (promote r now order) = depth r.
+Proof. unfold promote. destruct (promote_loop _ _ _ _ _). auto. Qed.
+
+Lemma rstep_sqok r fs e r' fs' o : SqOk r -> rstep A r fs e = (r', fs', o) -> SqOk r'.
+Proof.
+  unfold SqOk. intros I H. destruct e; cbn in H.
+  - unfold push in H. destruct (depth r <=? N.of_nat (length (sq r))) eqn:E; inversion H; subst; auto.
+    cbn. rewrite app_length. cbn. apply N.leb_gt in E. lia.
+  - inversion H; subst. destruct (submit_entries_sq (sq r) (set_sq r []) now lats) as [E1 E2].
+    rewrite E1, E2. cbn. lia.
+  - inversion H; subst; auto.
+  - inversion H; subst; auto.
+  - destruct (next A r fs now order) as [[rr ff] oy] eqn:X. inversion H; subst.
+    unfold next in X. destruct (visible r =? 0); [inversion X; subst; auto|].
+    destruct (promote_sq r now order) as [E1 E2].
+    destruct (ready (promote r now order)); [inversion X; subst; now rewrite E1, E2|].
+    destruct (exec A fs (c_app s)) as [[? ?] ?]. inversion X; subst. cbn. now rewrite E1, E2.
+  - inversion H; subst; auto.
+Qed.
+
+Lemma rrun_sqok es : forall r fs r' fs' os, SqOk r -> rrun r fs es = (r', fs', os) -> SqOk r'.
+Proof.
+  induction es as [|e es IH]; intros r fs r' fs' os I H; cbn in H.
+  - inversion H; subst. exact I.
+  - destruct (rstep A r fs e) as [[r1 fs1] o] eqn:S.
+    destruct (rrun r1 fs1 es) as [[r2 fs2] os2] eqn:R. inversion H; subst.
+    eapply IH; [|exact R]. eapply rstep_sqok; eauto.
+Qed.
+
+Lemma push_full_lemma d fs es r fs' os e :
+  rrun (new_ring d) fs es = (r, fs', os) ->
+  N.of_nat (length (sq r)) <= depth r /\
+  (snd (push r e) = false <-> N.of_nat (length (sq r)) = depth r) /\
+  (snd (push r e) = false -> fst (push r e) = r) /\
+  (snd (push r e) = true -> sq (fst (push r e)) = sq r ++ [e]).
+Proof.
+  intros H. assert (I : SqOk r).
+  { eapply rrun_sqok; [|exact H]. unfold SqOk. cbn. lia. }
+  unfold SqOk in I. split; [exact I|]. unfold push.
+  destruct (depth r <=? N.of_nat (length (sq r))) eqn:E; cbn.
+  - apply N.leb_le in E. repeat split; auto; try discriminate. lia.
+  - apply N.leb_gt in E. repeat split; auto; try discriminate. lia.
+Qed.
+
+(* ---- crash ---- *)
+
+Definition below (n : N) (e : hev A) : bool :=
+  match e with HRing rid _ | HDrop rid => rid <? n | _ => false end.
+
+Definition RidsBelow (h : host A) : Prop := forall rid r, get_ring rid (rings h) = Some r -> rid < nrid h.
+Definition NoneBelow (n : N) (h : host A) : Prop := (forall rid, rid < n -> get_ring rid (rings h) = None) /\ n <= nrid h.
+
+Lemma get_ring_app rid l k r :
+  get_ring rid (l ++ [(k, r)]) = match get_ring rid l with Some x => Some x | None => if k =? rid then Some r else None end.
+Proof. induction l as [|[k' r'] l IH]; cbn; [reflexivity|]. destruct (k' =? rid); auto. Qed.
+
+Lemma get_ring_set rid rid' r l :
+  get_ring rid (set_ring rid' r l) =
+  match get_ring rid l with Some x => Some (if rid' =? rid then r else x) | None => None end.
+Proof.
+  induction l as [|[k x] l IH]; cbn; [reflexivity|].
+  destruct (k =? rid') eqn:E1; cbn.
+  - apply N.eqb_eq in E1. subst. destruct (rid' =? rid) eqn:E2; [reflexivity|].
+    destruct (get_ring rid l); reflexivity.
+  - destruct (k =? rid) eqn:E2.
+    + apply N.eqb_eq in E2. subst. rewrite N.eqb_sym in E1. rewrite E1. reflexivity.
+    + exact IH.
+Qed.
+
+Lemma get_ring_del rid rid' l :
+  get_ring rid (del_ring rid' l) = if rid' =? rid then None else get_ring rid l.
+Proof.
+  unfold del_ring. induction l as [|[k x] l IH]; cbn; [now destruct (rid' =? rid)|].
+  destruct (k =? rid') eqn:E1; cbn.
+  - apply N.eqb_eq in E1. subst. rewrite IH. destruct (rid' =? rid); reflexivity.
+  - rewrite IH. destruct (k =? rid) eqn:E2; [|reflexivity].
+    apply N.eqb_eq in E2. subst. rewrite N.eqb_sym in E1. now rewrite E1.
+Qed.
+
+Lemma hstep_nonebelow n h e : NoneBelow n h -> NoneBelow n (fst (hstep A h e)).
+Proof.
+  intros [NB L]. destruct e as [entries|rid ev|rid| |f]; cbn.
+  - destruct (entries =? 0); [split; auto|]. cbn. split; cbn; [|lia].
+    intros rid Hr. rewrite get_ring_app, (NB rid Hr). destruct (nrid h =? rid) eqn:E; [|reflexivity].
+    apply N.eqb_eq in E. lia.
+  - destruct (get_ring rid (rings h)) as [r|] eqn:G; [|split; auto].
+    destruct (rstep A r (hfs h) ev) as [[r' fs'] o]. cbn. split; cbn; [|exact L].
+    intros k Hk. rewrite get_ring_set, (NB k Hk). reflexivity.
+  - split; cbn; [|exact L]. intros k Hk. rewrite get_ring_del, (NB k Hk). now destruct (rid =? k).
+  - split; [|exact L]. reflexivity.
+  - destruct (f (hfs h)) as [fs' [z d]]. split; auto.
+Qed.
+
+Lemma hstep_below_inert n h e :
+  NoneBelow n h -> below n e = true ->
+  fst (hstep A h e) = h /\
+  (snd (hstep A h e) = ONone \/ exists rid ev, snd (hstep A h e) = OGone rid ev).
+Proof.
+  intros [NB L] B. destruct e as [entries|rid ev|rid| |f]; cbn in B; try discriminate; apply N.ltb_lt in B.
+  - cbn. rewrite (NB rid B). split; [reflexivity|]. right. exists rid, ev. reflexivity.
+  - cbn. split; [|now left]. destruct h as [rs fs nr]. cbn in *. f_equal.
+    unfold del_ring. assert (forall l, (forall k, k < n -> get_ring k l = None) -> filter (fun kr => negb (fst kr =? rid)) l = l).
+    { induction l as [|[k x] l IH]; intros Hl; cbn; [reflexivity|].
+      destruct (k =? rid) eqn:E.
+      - apply N.eqb_eq in E. subst. specialize (Hl rid B). cbn in Hl. now rewrite N.eqb_refl in Hl.
+      - cbn. f_equal. apply IH. intros k' Hk'. specialize (Hl k' Hk'). cbn in Hl.
+        destruct (k =? k'); [discriminate|exact Hl]. }
+    now apply H.
+Qed.
+
+Lemma hrun_drop_below n es : forall h,
+  NoneBelow n h ->
+  fst (hrun A h es) = fst (hrun A h (filter (fun e => negb (below n e)) es)) /\
+  Forall2 (fun e o => below n e = true -> o = ONone \/ exists rid ev, o = OGone rid ev) es (snd (hrun A h es)).
+Proof.
+  induction es as [|e es IH]; intros h NB; cbn; [split; [reflexivity|constructor]|].
+  destruct (hstep A h e) as [h1 o] eqn:S.
+  pose proof (hstep_nonebelow n h e NB) as NB1. rewrite S in NB1. cbn in NB1.
+  destruct (below n e) eqn:B; cbn.
+  - destruct (hstep_below_inert n h e NB B) as [E O]. rewrite S in E, O. cbn in E, O. subst h1.
+    destruct (hrun A h es) as [h2 os] eqn:R. cbn.
+    destruct (IH h NB) as [E2 F2]. rewrite R in E2, F2. cbn in E2, F2. split; [exact E2|].
+    constructor; [intros _; exact O|exact F2].
+  - rewrite S. destruct (hrun A h1 es) as [h2 os] eqn:R.
+    destruct (IH h1 NB1) as [E2 F2]. rewrite R in E2, F2. cbn in E2, F2.
+    destruct (hrun A h1 (filter (fun e0 => negb (below n e0)) es)) as [h3 os3] eqn:R3. cbn in *.
+    split; [exact E2|]. constructor; [intros Hb; rewrite B in Hb; discriminate|exact F2].
+Qed.
+
+Lemma hstep_ridsbelow h e : RidsBelow h -> RidsBelow (fst (hstep A h e)).
+Proof.
+  unfold RidsBelow. intros RB. destruct e as [entries|rid ev|rid| |f]; cbn.
+  - destruct (entries =? 0); [exact RB|]. cbn. intros k r. rewrite get_ring_app.
+    destruct (get_ring k (rings h)) eqn:G.
+    + intros _. apply RB in G. lia.
+    + destruct (nrid h =? k) eqn:E; [|discriminate]. apply N.eqb_eq in E. lia.
+  - destruct (get_ring rid (rings h)) as [r|] eqn:G; [|exact RB].
+    destruct (rstep A r (hfs h) ev) as [[r' fs'] o]. cbn. intros k x. rewrite get_ring_set.
+    destruct (get_ring k (rings h)) eqn:G2; [|discriminate]. intros _. now apply RB in G2.
+  - intros k x. rewrite get_ring_del. destruct (rid =? k); [discriminate|apply RB].
+  - intros k x. discriminate.
+  - destruct (f (hfs h)) as [fs' [z d]]. exact RB.
+Qed.
+
+Lemma hrun_ridsbelow es : forall h, RidsBelow h -> RidsBelow (fst (hrun A h es)).
+Proof.
+  induction es as [|e es IH]; intros h RB; cbn; [exact RB|].
+  destruct (hstep A h e) as [h1 o] eqn:S. pose proof (hstep_ridsbelow h e RB) as RB1. rewrite S in RB1.
+  specialize (IH h1 RB1). destruct (hrun A h1 es). exact IH.
+Qed.
+
+Lemma crash_forgets_lemma fs es1 es2 :
+  let h := fst (hrun A (hinit A fs) es1) in
+  let hc := fst (hstep A h HCrash) in
+  rings hc = [] /\ hfs hc = hfs h /\
+  fst (hrun A hc es2) = fst (hrun A hc (filter (fun e => negb (below (nrid h) e)) es2)) /\
+  Forall2 (fun e o => below (nrid h) e = true -> o = ONone \/ exists rid ev, o = OGone rid ev)
+          es2 (snd (hrun A hc es2)).
+Proof.
+  intros h hc. split; [reflexivity|]. split; [reflexivity|].
+  apply hrun_drop_below. split; [reflexivity|]. cbn. lia.
+Qed.
+
+End WithFs.
